@@ -5,7 +5,7 @@ products, and g_23 = g_33 d(zShift)/dy by Simpson's rule over each cell."""
 import numpy as np
 
 from .. import oracles
-from ..gridutil import amax, argmax_where, case_class, pinned_mask
+from ..gridutil import amax, argmax_where, case_class, cellbox, inbox, pinned_mask
 from ..rec import rec
 
 PROPERTY = "C02"
@@ -43,9 +43,15 @@ def run(cap):
     orth = bool(mesh.user_options.orthogonal)
     W = {}
 
-    def upd(key, arr, region=None, loc=None, thr=None):
+    nout = [0]
+
+    def upd(key, arr, region=None, loc=None, thr=None, mask=None):
         w = W.setdefault(key, {"worst": 0.0, "n": 0, "where": None})
         a = np.asarray(arr, float)
+        if mask is not None and mask.shape == a.shape:
+            # points outside the psi data box: no derivative of the interpolated psi there
+            a = np.where(mask, a, 0.0)
+            w["n"] += int(mask.sum()) - a.size
         w["n"] += a.size
         m = amax(a)
         if m != m or m > w["worst"]:
@@ -72,7 +78,10 @@ def run(cap):
                 continue
             P = np.einsum("ij...,jk...->ik...", G, C)
             I3 = np.eye(3)[:, :, None, None]
-            upd("inverse_pair." + loc, np.abs(P - I3).max(axis=(0, 1)), region, loc)
+            # rounding of the product is proportional to sum_k |G_ik||C_kj|, which is >> 1 where the
+            # coefficients differ by many orders of magnitude (TORPEX: Bp ~ 1e-3 T)
+            S = np.einsum("ij...,jk...->ik...", np.abs(G), np.abs(C))
+            upd("inverse_pair." + loc, (np.abs(P - I3) / np.maximum(1.0, S)).max(axis=(0, 1)), region, loc)
             J = g("J")
             hy = g("hy")
             Bp = g("Bpxy")
@@ -87,9 +96,11 @@ def run(cap):
             upd("|J|=det(g^ij)^-1/2." + loc, np.abs(np.abs(J) * np.sqrt(det) - 1.0), region, loc)
             # ---- closed forms ----------------------------------------------------
             gR, gZ = oracles.fd_grad(psi, R, Z, h=1e-4 * L)
+            M = inbox(eq, R, Z, margin=2e-4 * L)
+            nout[0] += int((~M).sum())
             gp = np.hypot(gR, gZ)
             RBp2 = gp**2  # (R*Bp)^2 = |grad psi|^2
-            upd("g11=(R*Bp)^2." + loc, np.abs(G[0, 0] / RBp2 - 1.0), region, loc)
+            upd("g11=(R*Bp)^2." + loc, np.abs(G[0, 0] / RBp2 - 1.0), region, loc, mask=M)
             upd("g_33=R^2." + loc, np.abs(C[2, 2] / R**2 - 1.0), region, loc)
             Bt = g("Btxy")
             nu = hy * Bt / (Bp * R)  # with the sign of Bpxy, as documented for dphidy
@@ -108,18 +119,19 @@ def run(cap):
                 if eR is not None:
                     en = np.hypot(eR, eZ)
                     cosb = np.abs(eR * gR + eZ * gZ) / (en * gp)
+                    cosb = np.where(M, cosb, 1.0)
                 else:
                     cosb = None
             if cosb is not None:
                 tanb = np.sqrt(np.maximum(0.0, 1 - cosb**2)) / cosb
-                upd("g22=1/(hy*cos(beta))^2." + loc, np.abs(G[1, 1] * (hy * cosb) ** 2 - 1.0), region, loc)
-                upd("g_11=1/(R*Bp*cos(beta))^2." + loc, np.abs(C[0, 0] * RBp2 * cosb**2 - 1.0), region, loc)
+                upd("g22=1/(hy*cos(beta))^2." + loc, np.abs(G[1, 1] * (hy * cosb) ** 2 - 1.0), region, loc, mask=M)
+                upd("g_11=1/(R*Bp*cos(beta))^2." + loc, np.abs(C[0, 0] * RBp2 * cosb**2 - 1.0), region, loc, mask=M)
                 upd("g_22=hy^2+(R*nu)^2." + loc, np.abs(C[1, 1] / (hy**2 + (R * nu) ** 2) - 1.0), region, loc)
-                upd("g33=1/R^2+(nu/(hy*cos(beta)))^2." + loc, np.abs(G[2, 2] / (1 / R**2 + (nu / (hy * cosb)) ** 2) - 1.0), region, loc)
+                upd("g33=1/R^2+(nu/(hy*cos(beta)))^2." + loc, np.abs(G[2, 2] / (1 / R**2 + (nu / (hy * cosb)) ** 2) - 1.0), region, loc, mask=M)
                 sc12 = np.sqrt(RBp2) / hy
-                upd("|g12|=R|Bp||tan(beta)|/hy." + loc, np.abs(np.abs(G[0, 1]) - sc12 * tanb) / sc12, region, loc)
-                upd("|g_12|=hy|tan(beta)|/(R|Bp|)." + loc, np.abs(np.abs(C[0, 1]) - hy * tanb / np.sqrt(RBp2)) * np.sqrt(RBp2) / hy, region, loc)
-                upd("|g23|=|nu|/(hy*cos(beta))^2." + loc, np.abs(np.abs(G[1, 2]) - np.abs(nu) / (hy * cosb) ** 2) * hy**2 / (np.abs(nu) + 1e-300) if np.any(nu != 0) else np.abs(G[1, 2]), region, loc)
+                upd("|g12|=R|Bp||tan(beta)|/hy." + loc, np.abs(np.abs(G[0, 1]) - sc12 * tanb) / sc12, region, loc, mask=M)
+                upd("|g_12|=hy|tan(beta)|/(R|Bp|)." + loc, np.abs(np.abs(C[0, 1]) - hy * tanb / np.sqrt(RBp2)) * np.sqrt(RBp2) / hy, region, loc, mask=M)
+                upd("|g23|=|nu|/(hy*cos(beta))^2." + loc, np.abs(np.abs(G[1, 2]) - np.abs(nu) / (hy * cosb) ** 2) * hy**2 / (np.abs(nu) + 1e-300) if np.any(nu != 0) else np.abs(G[1, 2]), region, loc, mask=M)
                 upd("|g_23|=|nu|R^2." + loc, np.abs(np.abs(C[1, 2]) - np.abs(nu) * R**2) / (np.abs(nu) * R**2 + 1e-300) if np.any(nu != 0) else np.abs(C[1, 2]), region, loc)
             if orth:
                 z = max(amax(np.abs(G[0, 1])), amax(np.abs(G[0, 2])), amax(np.abs(C[0, 1])), amax(np.abs(C[0, 2])))
@@ -133,7 +145,7 @@ def run(cap):
         exZ = (region.Zxy.xlow[1:] - region.Zxy.xlow[:-1]) / dx
         eyR = (region.Rxy.ylow[:, 1:] - region.Rxy.ylow[:, :-1]) / dy
         eyZ = (region.Zxy.ylow[:, 1:] - region.Zxy.ylow[:, :-1]) / dy
-        ok = ~xc
+        ok = ~xc & cellbox(eq, region, margin=2e-4 * L)
         g_11 = region.g_11.centre
         if not np.all(g_11 == 0):
             upd("disp:g_11~|e_x|^2", np.where(ok, np.abs((exR**2 + exZ**2) / g_11 - 1.0), 0.0), region, "centre")
@@ -169,7 +181,7 @@ def run(cap):
             en = np.hypot(fxR, fxZ)
             cosb = np.abs(fxR * gR + fxZ * gZ) / (en * np.hypot(gR, gZ))
             tanb = np.sqrt(np.maximum(0, 1 - cosb**2)) / cosb
-            oky = ~(xc[:, 1:] | xc[:, :-1])
+            oky = ~(xc[:, 1:] | xc[:, :-1]) & ok[:, 1:] & ok[:, :-1]
             sel = oky & (tanb >= 0.3)
             if sel.any():
                 g12m = fxR * fyR + fxZ * fyZ
@@ -226,6 +238,8 @@ def run(cap):
         if key.startswith("disp:sign+size") and w["worst"] > 1.5:
             sig = "ratio measured/stored ~ -1: stored %s has the wrong sign" % ("g_12" if "g_12" in key else "g12")
         out.append(rec(key, cls, w["n"], w["worst"], thr, where=w["where"], sig=sig))
+    if nout[0]:
+        out.append(rec("informational: grid points outside the psi data box left out of the derivative-based closed forms", cls + "|outside-box", nout[0], 0, 0))
     for loc, names in zero_arrays.items():
         out.append(rec("metric_arrays_not_identically_zero." + loc, cls, len(names), len(names), 0, sig="%s identically zero at %s (%s)" % (",".join(sorted(names)), loc, "orthogonal" if orth else "non-orthogonal")))
     if not zero_arrays:
